@@ -1,0 +1,44 @@
+//! Verification hooks (only compiled with the `verif_hooks` feature).
+//!
+//! Nothing in here changes behaviour unless a callback has been installed:
+//! a hook point without a callback is one uncontended read lock and a branch.
+#![allow(missing_docs)]
+
+use std::sync::{Arc, RwLock};
+
+/// Callback invoked at named points inside log4rs: `(point name, argument)`.
+pub type PointHook = Arc<dyn Fn(&'static str, u64) + Send + Sync>;
+
+/// Callback overriding the time trigger's notion of "now".
+#[cfg(feature = "time_trigger")]
+pub type ClockHook = Arc<dyn Fn() -> Option<chrono::DateTime<chrono::Local>> + Send + Sync>;
+
+static POINT: RwLock<Option<PointHook>> = RwLock::new(None);
+
+#[cfg(feature = "time_trigger")]
+static CLOCK: RwLock<Option<ClockHook>> = RwLock::new(None);
+
+/// Installs (or removes) the process-wide point callback.
+pub fn set_point_hook(hook: Option<PointHook>) {
+    *POINT.write().unwrap_or_else(|e| e.into_inner()) = hook;
+}
+
+/// Installs (or removes) the process-wide clock override.
+#[cfg(feature = "time_trigger")]
+pub fn set_clock_hook(hook: Option<ClockHook>) {
+    *CLOCK.write().unwrap_or_else(|e| e.into_inner()) = hook;
+}
+
+#[allow(dead_code)]
+pub(crate) fn point(name: &'static str, arg: u64) {
+    let hook = POINT.read().unwrap_or_else(|e| e.into_inner()).clone();
+    if let Some(hook) = hook {
+        hook(name, arg);
+    }
+}
+
+#[cfg(feature = "time_trigger")]
+pub(crate) fn now() -> Option<chrono::DateTime<chrono::Local>> {
+    let hook = CLOCK.read().unwrap_or_else(|e| e.into_inner()).clone();
+    hook.and_then(|hook| hook())
+}
